@@ -146,6 +146,27 @@ func c20ServerChannel(cs c20Case, r *rand.Rand, st *c20Store, id int) error {
 			{NodeID: ua.NewStringNodeID(1, text), AttributeID: ua.AttributeIDValue, IndexRange: text[:len(text)/2], Value: &ua.DataValue{EncodingMask: ua.DataValueValue, Value: ua.MustVariant(payload)}},
 			{NodeID: ua.NewByteStringNodeID(2, payload[:len(payload)/3]), AttributeID: ua.AttributeIDValue, Value: &ua.DataValue{EncodingMask: ua.DataValueValue, Value: ua.MustVariant([]string{text, "x", text})}},
 		}}
+		if r.Intn(3) == 0 {
+			// a conforming split with an empty final chunk: all data in one or two intermediate chunks
+			req.SetHeader(&ua.RequestHeader{AuthenticationToken: ua.NewTwoByteNodeID(0), Timestamp: time.Now(), RequestHandle: uint32(9000 + i), AdditionalHeader: ua.NewExtensionObject(nil)})
+			body, _ := refpeer.EncodeBody(req)
+			if len(body) < 60000 {
+				m := &c12Msg{reqID: uint32(9000 + i), body: body, abortAt: -1}
+				if r.Intn(2) == 0 || len(body) < 4 {
+					m.parts = [][]byte{body, {}}
+				} else {
+					m.parts = [][]byte{body[:len(body)/2], body[len(body)/2:], {}}
+				}
+				order := make([][2]int, len(m.parts))
+				for k := range m.parts {
+					order[k] = [2]int{0, k}
+				}
+				if _, err := c12Send(ch, []*c12Msg{m}, order); err != nil {
+					return fmt.Errorf("reference sender: %v", err)
+				}
+				continue
+			}
+		}
 		if _, err := ch.SendRequest(req, nil, refpeer.SendOpts{MaxBody: []int{0, 0, 1000, 8000}[r.Intn(4)]}); err != nil {
 			return fmt.Errorf("reference sender: %v", err)
 		}
@@ -196,6 +217,12 @@ func c20ClientChannel(cs c20Case, r *rand.Rand, st *c20Store, id int) error {
 			{EncodingMask: ua.DataValueValue, Value: ua.MustVariant([]string{text, text[:len(text)/2]})},
 			{EncodingMask: ua.DataValueValue, Value: ua.MustVariant(ua.NewLocalizedText(text))},
 		}}
+		if body, err := refpeer.EncodeBody(resp); err == nil && len(body) < 60000 && maxBody == 0 {
+			// every second small response ends with an empty final chunk
+			cm := &c12Msg{reqID: m.ReqID, body: body, abortAt: -1, parts: [][]byte{body, {}}}
+			c12Send(sc.Channel, []*c12Msg{cm}, [][2]int{{0, 0}, {0, 1}})
+			return
+		}
 		sc.SendService("MSG", m.ReqID, resp, refpeer.SendOpts{MaxBody: maxBody})
 	}
 	ctx, cancel := context.WithTimeout(context.Background(), 60*time.Second)
@@ -358,7 +385,7 @@ func init() {
 	fw.Register("C20", fw.Spec{
 		Plan: func(tier string) fw.Plan {
 			p := fw.Plan{Batches: 8, TimeoutS: 900, MinNontrivial: 16, Level: "exploration",
-				Rule:        "runs with 1, 3 or 8 connections in parallel, 6-25 messages each, back to back: (a) a bare server-kind channel receives single- and multi-chunk WriteRequests with ByteStrings up to 200 kB, long strings and string arrays from the reference client, (b) a bare client-kind channel receives such ReadResponses from the reference server, (c) a real client reads and writes large values on the real server; modes None, Sign, SignAndEncrypt; every delivered request, response and stored value is retained with the SHA-256 of its re-encoding at delivery, re-hashed whenever a connection finishes (while the others still receive) and at the end; oracle: hashes unchanged; evaluations = retained messages",
+				Rule:        "runs with 1, 3 or 8 connections in parallel, 6-25 messages each, back to back: (a) a bare server-kind channel receives single- and multi-chunk WriteRequests with ByteStrings up to 200 kB, long strings and string arrays from the reference client (a third of them split so that the final chunk is empty), (b) a bare client-kind channel receives such ReadResponses from the reference server, (c) a real client reads and writes large values on the real server; modes None, Sign, SignAndEncrypt; every delivered request, response and stored value is retained with the SHA-256 of its re-encoding at delivery, re-hashed whenever a connection finishes (while the others still receive) and at the end; oracle: hashes unchanged; evaluations = retained messages",
 				Assumptions: []string{"aliasing is observed through the public fields of the delivered objects (re-encoding)"}}
 			if tier == "thorough" {
 				p.Batches, p.TimeoutS, p.MinNontrivial = 16, 3000, 1000
